@@ -15,7 +15,7 @@ expressible); (3) commit: the parent's commit_changes is called only from Storag
 with the taken (mem::take) change set; commit requires Storage: Modifiable (bound); (4) merging into
 a transaction (`Modifiable for InMemoryTransaction`): ConflictPolicy matched without wildcard; under
 Fail an occupied entry is an error exit and a vacant one is inserted; under Overwrite the entry is
-inserted. Every KeyValueMutate method of InMemoryTransaction records a pending operation of the right kind (Insert for put/replace/write, Remove for take/delete) on every successful path and never removes an entry from the change set.
+inserted. Every KeyValueMutate method of InMemoryTransaction records a pending operation of the right kind (Insert for put/replace/write, Remove for take/delete) on every successful path and never removes an entry from the change set. (5) merge direction of commit_changes: no mem::swap/replace/take; the insert target derives from self.changes, the inserted operations and both loops from the incoming changes.
 """
 NOT_DECIDED = """Offsets in read_exact / read_zerofill; the whole-column-vacant fast path (inserts the incoming
 column without per-key checks — correct because the column is empty; noted)."""
